@@ -216,6 +216,69 @@ theorem conservation_cleanup (ty : AcctType) (op : CleanOp) (who : Who) (cached 
       have r := run f rfl
       cases op <;> simp only [cleanupZc, cleanupBorsh] <;> first | exact ⟨(r _).1, (r _).2⟩ | exact ⟨(r _).1, (r _).1⟩
 
+/-- `no_u64_wrap`: where the code adds `u64`s — `add_lamports` (`+=`, a panic under the repo's
+`overflow-checks = true`) in the excess paths of normalize / refund and in close, and the System
+program's `checked_add` credit (`ArithmeticOverflow`) in the top-up paths of normalize / receive —
+neither outcome is reachable when the listed accounts' total is below `2^64`. (The subtractions
+`rent - lamports` / `lamports - rent` are taken in the branch where they cannot underflow.) -/
+theorem no_u64_wrap (W : Nat) (op : CleanOp) (ks : List Key) (hnd : ks.Nodup) (ht : tgt ∈ ks)
+    (ho : f.key ∈ ks) (hne : f.key ≠ tgt) (hsum : total ks s.w < 2 ^ 64) :
+    (runOp env W op f tgt s).1 ≠ .panic ∧ (runOp env W op f tgt s).1 ≠ .err (.sys .arithmeticOverflow) := by
+  refine ⟨(conservation env f tgt s W op ks hnd ht ho hne hsum).2, ?_⟩
+  have hle := add_le_total ks s.w f.key tgt hnd ho ht hne
+  have fund : ∀ n, (fundRent env f tgt n s).1 ≠ .err (.sys .arithmeticOverflow) := by
+    intro n h
+    have := invoke_err_sys h
+    simp only [sys] at this
+    exact transfer_no_overflow hne (by omega) this
+  have direct : ∀ n, n ≤ (s.w tgt).lamports →
+      (addLamports f.key n { s with w := setLamports s.w tgt ((s.w tgt).lamports - n) }).1 ≠ .err (.sys .arithmeticOverflow) := by
+    intro n hn
+    rw [debit_credit f.key tgt n s ks hnd ht ho hne hn hsum]; simp
+  cases op with
+  | normalize =>
+    simp only [runOp, normalizeRent]
+    split; · simp
+    split
+    · split
+      · simp
+      · exact fund _
+    · exact direct _ (by omega)
+  | refund =>
+    simp only [runOp, refundRent]
+    split; · simp
+    split
+    · split <;> simp
+    · exact direct _ (by omega)
+  | receive =>
+    simp only [runOp, receiveRent]
+    split
+    · split
+      · simp
+      · exact fund _
+    · simp
+  | close =>
+    simp only [runOp]
+    rcases closeAccount_cases W f.key tgt s with ⟨e, _⟩ | ⟨e, _⟩ <;> rw [e] <;> simp
+
+/-- `excess_is_returned`: an account holding MORE than its rent minimum is always normalised /
+refunded successfully — no signature, no funder balance is needed, however large the excess (up to
+a total supply of `2^64 − 1`): it ends with exactly the minimum and the counterpart is credited the
+excess. -/
+theorem excess_is_returned (ks : List Key) (hnd : ks.Nodup) (ht : tgt ∈ ks)
+    (ho : f.key ∈ ks) (hne : f.key ≠ tgt) (hsum : total ks s.w < 2 ^ 64)
+    (hex : (s.w tgt).lamports > env.rentMin (s.w tgt).data.length) :
+    normalizeRent env f tgt s = (.ok (), { s with w := move s.w tgt f.key ((s.w tgt).lamports - env.rentMin (s.w tgt).data.length) }) ∧
+    refundRent env f.key tgt s = (.ok (), { s with w := move s.w tgt f.key ((s.w tgt).lamports - env.rentMin (s.w tgt).data.length) }) := by
+  have d := debit_credit f.key tgt ((s.w tgt).lamports - env.rentMin (s.w tgt).data.length) s ks hnd ht ho hne (by omega) hsum
+  constructor
+  · unfold normalizeRent
+    simp only []
+    rw [if_neg (by omega), if_neg (by omega)]; exact d
+  · unfold refundRent
+    simp only []
+    rw [if_neg (by omega), if_neg (by omega)]; exact d
+
 /-- `only_named_accounts_change`: whatever the operation and its outcome, every account other than
 the one being cleaned up and the funder / recipient is untouched byte for byte; the three rent
 operations never touch the data of any account, and only the lamports of the two named ones. -/
